@@ -120,6 +120,9 @@ def _parse_operators_and_coefficient(
         coef = None
         operators_strs = parts
 
+    # A bare "I" (as printed for constant terms) denotes identity on no qubit.
+    operators_strs = [op_str for op_str in operators_strs if op_str.upper() != "I"]
+
     operators_dict = dict([_parse_operator(op_str) for op_str in operators_strs])
 
     if len(operators_dict) != len(operators_strs):
